@@ -818,8 +818,8 @@ func cmdQuery(ss *serverSession) {
 }
 
 func cmdReadCount(ss *serverSession) {
-	ss.getTran()
-	ss.PutBool(true).PutInt(0) //TODO
+	tran, _ := ss.getTran()
+	ss.PutBool(true).PutInt(tran.ReadCount())
 }
 
 func cmdRewind(ss *serverSession) {
@@ -887,8 +887,8 @@ func cmdUpdate(ss *serverSession) {
 }
 
 func cmdWriteCount(ss *serverSession) {
-	ss.getTran()
-	ss.PutBool(true).PutInt(0) //TODO
+	tran, _ := ss.getTran()
+	ss.PutBool(true).PutInt(tran.WriteCount())
 }
 
 type command func(ss *serverSession)
